@@ -13,7 +13,8 @@
 import logging
 import operator
 from multiprocessing import Process, Queue
-from typing import Any, Callable, Dict, Iterator, List, Optional
+from queue import Empty
+from typing import Any, Callable, Dict, Iterator, List, Optional, Tuple
 
 from numpy.typing import NDArray
 
@@ -50,6 +51,8 @@ from nucs.solvers.backtrack_solver import BacktrackSolver
 from nucs.solvers.solver import Solver
 
 logger = logging.getLogger(__name__)
+
+QUEUE_TIMEOUT = 1.0  # in seconds
 
 
 class MultiprocessingSolver(Solver):
@@ -88,13 +91,18 @@ class MultiprocessingSolver(Solver):
 
     def solve(self) -> Iterator[NDArray]:
         solutions: Queue = Queue()
+        processes = []
         for proc_idx, solver in enumerate(self.solvers):
-            Process(target=solver.solve_and_queue, args=(proc_idx, solutions)).start()
+            process = Process(target=solver.solve_and_queue, args=(proc_idx, solutions))
+            process.start()
+            processes.append(process)
+        finished = [False] * len(self.solvers)
         nb = len(self.solvers)
         while nb > 0:
-            proc_idx, solution, statistics = solutions.get()
+            proc_idx, solution, statistics = get_message(solutions, processes, finished)
             self.statistics[proc_idx] = statistics
             if solution is None:
+                finished[proc_idx] = True
                 nb -= 1
             else:
                 yield solution
@@ -107,18 +115,46 @@ class MultiprocessingSolver(Solver):
 
     def optimize(self, variable_idx: int, proc_func_name: str, comparison_func: Callable) -> Optional[NDArray]:
         solutions: Queue = Queue()
+        processes = []
         for proc_idx, solver in enumerate(self.solvers):
-            Process(target=(getattr(solver, proc_func_name)), args=(variable_idx, proc_idx, solutions)).start()
+            process = Process(target=(getattr(solver, proc_func_name)), args=(variable_idx, proc_idx, solutions))
+            process.start()
+            processes.append(process)
+        finished = [False] * len(self.solvers)
         best_solution = None
         nb = len(self.solvers)
         while nb > 0:
-            proc_idx, solution, statistics = solutions.get()
+            proc_idx, solution, statistics = get_message(solutions, processes, finished)
             self.statistics[proc_idx] = statistics
             if solution is None:
+                finished[proc_idx] = True
                 nb -= 1
             elif best_solution is None or comparison_func(solution[variable_idx], best_solution[variable_idx]):
                 best_solution = solution
         return best_solution
+
+
+def get_message(solutions: Queue, processes: List[Any], finished: List[bool]) -> Tuple[int, Optional[NDArray], Any]:
+    """
+    Gets the next message sent by a process.
+    Raises an error if a process has terminated without having announced its completion.
+    :param solutions: the queue of messages
+    :param processes: the processes
+    :param finished: for each process, true iff the process has announced its completion
+    :return: a message
+    """
+    while True:
+        try:
+            return solutions.get(timeout=QUEUE_TIMEOUT)  # type: ignore
+        except Empty:
+            for proc_idx, process in enumerate(processes):
+                if not finished[proc_idx] and not process.is_alive():
+                    try:  # the last messages of the process could still be on their way
+                        return solutions.get(timeout=QUEUE_TIMEOUT)  # type: ignore
+                    except Empty:
+                        for other_process in processes:
+                            other_process.terminate()
+                        raise RuntimeError(f"Process {proc_idx} has terminated abnormally")
 
 
 def sum_stats(stats: List[Any], index: int) -> int:
